@@ -35,10 +35,10 @@ CLAIMED["C15"] = dict(
     text="Lean theorems (Props/C15.lean): for every matcher and file, return-mode no-matches yields exactly the scanned records "
          "the default mode does not (same matcher calls, same final state); with unmatched-mode keep the collected and unmatched "
          "lines partition the records read, in order; run-mode no-run reads nothing; the outer comment scanner returns scan and "
-         "match text unchanged for every comment free of ~[]$ (any Unicode classification). Tie: suite `modes` (written modes, "
+         "match text unchanged for every comment free of ~[]$ (any Unicode classification); a comment of free text followed by `key: value` fields yields exactly those fields in metadata, in order, values trimmed (c15_fields). Tie: suite `modes` (written modes, "
          "flipped return-mode, flipped print-mode, metadata fields) against the real code and the model; the metadata field "
          "scanner model is fuzzed against MetadataParser on every case.",
-    note="print-mode and the field scanner (collect_metadata) are covered by model correspondence and the oracle, not by a theorem; "
+    note="print-mode is covered by model correspondence and the oracle, not by a theorem; "
          "str.isalnum/isspace are parameters of the model supplied per character by the harness.",
     technique="Lean 4 proof (run-loop invariants; character state machine) + correspondence",
     design="6/C15",
